@@ -25,6 +25,8 @@ Model: `Stream.compactWith` / `compactInterleaved` and `Stream.recover` (M4) ove
 * `compaction_preserves_recovery_under_read_faults`: the oracle may also mangle any read of the
   pass (`readCorrupt`); the current compactor skips such a segment.  `merge_invalid_segment_
   counterexample` shows what merging it does.
+* `no_tombstone_dropped_when_ttl_exceeds_now`: the cutoff is the code's real u64 arithmetic
+  (`now.saturating_sub(ttl as u64)`); `signed_cutoff_counterexample`, `ttl_truncation_counterexample`.
 * kernel-checked counterexamples for every excluded case: `equal_times_counterexample`,
   `expiry_some_then_none_counterexample`, `hash_two_replicas_counterexample`,
   `production_clock_counterexample`, `dropped_tombstone_expiry_counterexample`,
@@ -260,7 +262,7 @@ def after (ops : List Op) : World := (runWith pinned allOk (Sys.init [] 1) ops).
 
 theorem storeInv_after (ops : List Op) : StoreInv (after ops).store := storeInv_runWith pinned allOk 1 ops
 
-def cfgAll : CompactCfg := { target := 1000, minSegs := 2, maxPer := 5, cutoff := 0 }
+def cfgAll : CompactCfg := { target := 1000, minSegs := 2, maxPer := 5, now := 0, ttlMs := 0 }
 
 /-- two replicas write key 107 at the same Lamport time 5 -/
 def equalTimesOps : List Op := [.push (107, lww 1 5 1), .flush 100, .push (107, lww 2 5 2), .flush 100]
@@ -314,7 +316,7 @@ def productionCutoff : Nat := 1700000000000 - 86400000
     compaction and the older value in the skipped segment resurfaces. -/
 theorem production_clock_counterexample :
     (recState (after gcOps).store 1).map visible = some [(117, lww 1 6 1)] ∧
-    (recState (compactWith pinnedFlags allOk { cfgAll with cutoff := productionCutoff } 100 (after gcOps)).1.store 1).map visible
+    (recState (compactWith pinnedFlags allOk { cfgAll with now := 1700000000000, ttlMs := 86400000 } 100 (after gcOps)).1.store 1).map visible
       = some [(116, lww 120 3 1), (117, lww 1 6 1)] := by
   decide
 
@@ -324,9 +326,9 @@ theorem production_clock_counterexample :
     (`mergeInsteadOfLatest`) compactor has the same defect. -/
 theorem older_value_in_skipped_segment_counterexample :
     (recState (after gcOps).store 1).map visible = some [(117, lww 1 6 1)] ∧
-    (recState (compactWith pinnedFlags allOk { cfgAll with cutoff := 100 } 100 (after gcOps)).1.store 1).map visible
+    (recState (compactWith pinnedFlags allOk { cfgAll with now := 100, ttlMs := 0 } 100 (after gcOps)).1.store 1).map visible
       = some [(116, lww 120 3 1), (117, lww 1 6 1)] ∧
-    (recState (compactWith repairedCompact allOk { cfgAll with cutoff := 100 } 100 (after gcOps)).1.store 1).map visible
+    (recState (compactWith repairedCompact allOk { cfgAll with now := 100, ttlMs := 0 } 100 (after gcOps)).1.store 1).map visible
       = some [(116, lww 120 3 1), (117, lww 1 6 1)] := by
   decide
 
@@ -347,11 +349,11 @@ def gcExpiryOps : List Op :=
     (merge-instead-of-latest) compactor has it. -/
 theorem dropped_tombstone_expiry_counterexample :
     recState (after gcExpiryOps).store 1 = some [(107, { lww 16 8 1 with expiry := some 2000 })] ∧
-    recState (compactWith repairedCompact allOk { cfgAll with cutoff := 100 } 100 (after gcExpiryOps)).1.store 1
+    recState (compactWith repairedCompact allOk { cfgAll with now := 100, ttlMs := 0 } 100 (after gcExpiryOps)).1.store 1
       = some [(107, lww 16 8 1)] ∧
-    (compactWith repairedCompact allOk { cfgAll with cutoff := 100 } 100 (after gcExpiryOps)).2 = .emptied [0, 1] 1 ∧
+    (compactWith repairedCompact allOk { cfgAll with now := 100, ttlMs := 0 } 100 (after gcExpiryOps)).2 = .emptied [0, 1] 1 ∧
     Coherent (content (after gcExpiryOps).store) ∧
-    ¬ GcSafe (after gcExpiryOps).store { cfgAll with cutoff := 100 } := by
+    ¬ GcSafe (after gcExpiryOps).store { cfgAll with now := 100, ttlMs := 0 } := by
   decide
 
 /-- Causal mode, two replicas: r1 writes key 107 (vector clock {1:1}) and deletes it ({1:2}); r2's
@@ -367,10 +369,10 @@ def gcVclockOps : List Op :=
     — here the entry `{1:2}` of the vector clock. -/
 theorem dropped_tombstone_vclock_counterexample :
     recState (after gcVclockOps).store 1 = some [(107, { lww 2 8 2 with vc := some [(1, 2), (2, 1)] })] ∧
-    recState (compactWith repairedCompact allOk { cfgAll with cutoff := 100 } 100 (after gcVclockOps)).1.store 1
+    recState (compactWith repairedCompact allOk { cfgAll with now := 100, ttlMs := 0 } 100 (after gcVclockOps)).1.store 1
       = some [(107, { lww 2 8 2 with vc := some [(2, 1)] })] ∧
     Coherent (content (after gcVclockOps).store) ∧
-    ¬ GcSafe (after gcVclockOps).store { cfgAll with cutoff := 100 } := by
+    ¬ GcSafe (after gcVclockOps).store { cfgAll with now := 100, ttlMs := 0 } := by
   decide
 
 /-- three candidates of uneven sizes, `max_segments_per_compaction = 2`: segment 0 (large, oldest)
@@ -378,7 +380,7 @@ theorem dropped_tombstone_vclock_counterexample :
 def unevenOps : List Op :=
   [.push (107, lww 1 10 1), .flush 900, .push (107, tomb 20 1), .flush 100, .push (120, lww 2 30 1), .flush 100]
 
-def unevenCfg : CompactCfg := { target := 1000, minSegs := 2, maxPer := 2, cutoff := 100 }
+def unevenCfg : CompactCfg := { target := 1000, minSegs := 2, maxPer := 2, now := 100, ttlMs := 0 }
 
 /-- **smallest-first selection breaks tombstone GC where oldest-first does not**: oldest-first
     compacts segments 0 and 1 — the expired tombstone goes together with the value it deletes;
@@ -404,7 +406,7 @@ theorem smallest_first_selection_counterexample :
     a wrong value -/
 def readFaultOps : List Op := [.push (107, lww 1 5 1), .flush 100, .push (108, lww 2 6 1), .flush 100]
 def readFaultOracle : Oracle := fun n => if n = 9 then .readCorrupt else .ok
-def cfgOne : CompactCfg := { target := 1000, minSegs := 1, maxPer := 5, cutoff := 0 }
+def cfgOne : CompactCfg := { target := 1000, minSegs := 1, maxPer := 5, now := 0, ttlMs := 0 }
 
 /-- **merge-invalid counterexample** (seed C13-compaction-merges-invalid-segment): the current
     compactor skips the segment whose read was mangled and recovery is unchanged; the variant
@@ -424,7 +426,7 @@ theorem merge_invalid_segment_counterexample :
 def gcSkipOps : List Op :=
   [.push (107, lww 1 5 1), .flush 100, .push (107, tomb 8 1), .flush 100, .push (120, lww 2 9 1), .flush 100]
 def gcSkipOracle : Oracle := fun n => if n = 13 then .readCorrupt else .ok
-def gcSkipCfg : CompactCfg := { target := 1000, minSegs := 2, maxPer := 5, cutoff := 100 }
+def gcSkipCfg : CompactCfg := { target := 1000, minSegs := 2, maxPer := 5, now := 100, ttlMs := 0 }
 
 /-- **Known finding C13:tombstone-gc:skipped-unreadable-segment.**  Tombstone GC looks only at what
     the pass actually merged: when a selected older segment is skipped because its read was
@@ -438,6 +440,68 @@ theorem gc_skipped_unreadable_segment_counterexample :
       = some [(107, lww 1 5 1), (120, lww 2 9 1)] := by
   decide
 
+/-! ## the cutoff arithmetic -/
+
+/-- **no_tombstone_dropped_when_ttl_exceeds_now** (u64 TTLs — everything a configuration file can
+    express, incl. `u64::MAX` ms = "never collect"): the code computes `now.saturating_sub(ttl)`
+    in u64, so a TTL of at least `now` gives cutoff 0 and the pass drops no tombstone -/
+theorem no_tombstone_dropped_when_ttl_exceeds_now (cfg : CompactCfg) (hu : cfg.ttlMs < 2 ^ 64)
+    (h : cfg.now ≤ cfg.ttlMs) (ktd : NMap RV) : cfg.cutoff = 0 ∧ keptOf cfg ktd = ktd := by
+  have hc : cfg.cutoff = 0 := by
+    unfold CompactCfg.cutoff cutoffWith ttlToU64With
+    split
+    · have : Min.min cfg.ttlMs (2 ^ 64 - 1) = cfg.ttlMs := by
+        apply Nat.min_eq_left; omega
+      rw [this]; omega
+    · rw [Nat.mod_eq_of_lt hu]; omega
+  exact ⟨hc, keptOf_noGC hc ktd⟩
+
+/-- with the saturating conversion (suggested repair) the same holds for every u128 TTL
+    (`Duration::MAX` included) as long as `now` is a u64 -/
+theorem no_tombstone_dropped_when_ttl_exceeds_now_saturating (now ttlMs : Nat) (hn : now < 2 ^ 64)
+    (h : now ≤ ttlMs) : cutoffWith true now ttlMs = 0 := by
+  unfold cutoffWith ttlToU64With
+  simp only [if_true]
+  by_cases hle : ttlMs ≤ 2 ^ 64 - 1
+  · rw [Nat.min_eq_left hle]; omega
+  · rw [Nat.min_eq_right (by omega)]; omega
+
+/-- **Known finding C13:tombstone-gc:ttl-truncated-to-u64.**  `tombstone_ttl.as_millis() as u64`
+    truncates the u128 modulo 2^64: a TTL of 2^64 + 384 ms (`Duration::from_secs(18446744073709552)`,
+    584 million years) is read as 384 ms, so at `now = 1000` the cutoff is 616 and a tombstone
+    written at Lamport time 5 is dropped although its TTL is far from elapsed. -/
+theorem ttl_truncation_counterexample :
+    cutoffWith false 1000 (2 ^ 64 + 384) = 616 ∧ (tomb 5 1).ts.time < cutoffWith false 1000 (2 ^ 64 + 384) ∧
+    cutoffWith true 1000 (2 ^ 64 + 384) = 0 := by
+  decide
+
+/-- two's-complement reading of a u64 as i64 (`x as i64`) -/
+def toI64 (x : Nat) : Int := ((x + 2 ^ 63) % 2 ^ 64 : Nat) - (2 ^ 63 : Int)
+
+/-- the seeded variant: `now_millis_i64() - tombstone_ttl.as_millis() as i64`, compared with
+    `delta_time as i64` -/
+def cutoffSigned (now ttlMs : Nat) : Int := toI64 now - toI64 (ttlMs % 2 ^ 64)
+
+def keptOfSigned (now ttlMs : Nat) (ktd : NMap RV) : NMap RV :=
+  ktd.filter (fun p => !(p.2.isTombstone && decide (toI64 p.2.ts.time < cutoffSigned now ttlMs)))
+
+/-- **signed_cutoff_counterexample** (seed C13-tombstone-cutoff-signed-overflow): with the legal
+    "never collect" TTL `u64::MAX` ms the code's u64 arithmetic gives cutoff 0 and keeps every
+    tombstone; the signed variant reads the TTL as −1, gets cutoff `now + 1` and drops them all —
+    e.g. the delete of key 116 at time 5 whose older value sits in a segment outside the pass
+    (`gcOps`), which then resurfaces (the pass with cutoff `now + 1` is the model's pass with
+    `now := now + 1, ttl := 0`). -/
+theorem signed_cutoff_counterexample :
+    ({ cfgAll with now := 1000, ttlMs := 2 ^ 64 - 1 } : CompactCfg).cutoff = 0 ∧
+    cutoffSigned 1000 (2 ^ 64 - 1) = 1001 ∧
+    keptOf { cfgAll with now := 1000, ttlMs := 2 ^ 64 - 1 } [(116, tomb 5 1)] = [(116, tomb 5 1)] ∧
+    keptOfSigned 1000 (2 ^ 64 - 1) [(116, tomb 5 1)] = [] ∧
+    (recState (compactWith repairedCompact allOk { cfgAll with now := 1000, ttlMs := 2 ^ 64 - 1 } 100 (after gcOps)).1.store 1).map visible
+      = (recState (after gcOps).store 1).map visible ∧
+    (recState (compactWith repairedCompact allOk { cfgAll with now := 1001, ttlMs := 0 } 100 (after gcOps)).1.store 1).map visible
+      = some [(116, lww 120 3 1), (117, lww 1 6 1)] := by
+  decide
+
 theorem C13_false_pinned : ¬ C13_compaction_preserves_recovery pinnedFlags := by
   intro h
   have := h allOk cfgAll 100 (after equalTimesOps) 1 (by decide) (storeInv_after _) (by decide)
@@ -446,7 +510,7 @@ theorem C13_false_pinned : ¬ C13_compaction_preserves_recovery pinnedFlags := b
 
 theorem C13_false_repaired_with_gc : ¬ C13_compaction_preserves_recovery repairedCompact := by
   intro h
-  have := h allOk { cfgAll with cutoff := 100 } 100 (after gcOps) 1 (by decide) (storeInv_after _) (by decide)
+  have := h allOk { cfgAll with now := 100, ttlMs := 0 } 100 (after gcOps) 1 (by decide) (storeInv_after _) (by decide)
   revert this
   decide
 
@@ -499,13 +563,13 @@ example :
 def gcSafeOps : List Op :=
   [.push (116, lww 120 3 1), .flush 100, .push (116, tomb 5 1), .flush 100, .push (117, lww 1 6 1), .flush 5000]
 
-example : GcSafe (after gcSafeOps).store { cfgAll with cutoff := 100 } ∧
+example : GcSafe (after gcSafeOps).store { cfgAll with now := 100, ttlMs := 0 } ∧
     Coherent (content (after gcSafeOps).store) ∧
-    (compactWith repairedCompact allOk { cfgAll with cutoff := 100 } 100 (after gcSafeOps)).2 = .emptied [0, 1] 1 ∧
+    (compactWith repairedCompact allOk { cfgAll with now := 100, ttlMs := 0 } 100 (after gcSafeOps)).2 = .emptied [0, 1] 1 ∧
     recState (after gcSafeOps).store 1 = some [(116, tomb 5 1), (117, lww 1 6 1)] ∧
-    recState (compactWith repairedCompact allOk { cfgAll with cutoff := 100 } 100 (after gcSafeOps)).1.store 1
+    recState (compactWith repairedCompact allOk { cfgAll with now := 100, ttlMs := 0 } 100 (after gcSafeOps)).1.store 1
       = some [(117, lww 1 6 1)] ∧
-    ¬ GcSafe (after gcOps).store { cfgAll with cutoff := 100 } := by
+    ¬ GcSafe (after gcOps).store { cfgAll with now := 100, ttlMs := 0 } := by
   decide
 
 
@@ -519,7 +583,7 @@ def exOps : List Op :=
    .push (110, lww 4 2 2), .flush 5000,
    .push (108, lww 5 11 1), .flush 100]
 
-def exCfg : CompactCfg := { target := 1000, minSegs := 2, maxPer := 2, cutoff := 0 }
+def exCfg : CompactCfg := { target := 1000, minSegs := 2, maxPer := 2, now := 0, ttlMs := 0 }
 
 example : Coherent (content (after exOps).store) ∧
     KeepLatestAgreesWithMerge (after exOps).store exCfg ∧ NoTombstoneDropped (after exOps).store exCfg ∧
